@@ -21,7 +21,8 @@ import (
 // C10 — report metrics equal an exact reference computation, in any order, incrementally.
 
 type c10Res struct {
-	TS      int64 // unix ns
+	TS      int64 // ns after Epoch
+	Epoch   int64 `json:",omitempty"` // seconds since 1970 (the same for all results of a case): instants outside 1677..2262 are legal too
 	Latency int64
 	Code    uint16
 	In, Out uint64
@@ -35,12 +36,13 @@ type c10Case struct {
 }
 
 func (r c10Res) result() *vegeta.Result {
-	return &vegeta.Result{Timestamp: time.Unix(0, r.TS), Latency: time.Duration(r.Latency), Code: r.Code,
+	return &vegeta.Result{Timestamp: time.Unix(r.Epoch, r.TS), Latency: time.Duration(r.Latency), Code: r.Code,
 		BytesIn: r.In, BytesOut: r.Out, Error: r.Err}
 }
 
 type c10Ref struct {
 	n                          int
+	epoch                      int64
 	codes                      map[string]int
 	inTotal, outTotal          *big.Int
 	latTotal                   *big.Int
@@ -55,6 +57,7 @@ type c10Ref struct {
 func c10Reference(rs []c10Res) c10Ref {
 	ref := c10Ref{n: len(rs), codes: map[string]int{}, inTotal: new(big.Int), outTotal: new(big.Int), latTotal: new(big.Int), errors: map[string]bool{}}
 	for i, r := range rs {
+		ref.epoch = r.Epoch
 		ref.codes[strconv.Itoa(int(r.Code))]++
 		ref.inTotal.Add(ref.inTotal, new(big.Int).SetUint64(r.In))
 		ref.outTotal.Add(ref.outTotal, new(big.Int).SetUint64(r.Out))
@@ -149,14 +152,14 @@ func c10Compare(m *vegeta.Metrics, ref c10Ref, what string) error {
 	if math.Abs(float64(m.Latencies.Mean)-mean) > 1+1e-15*math.Abs(mean)*4 {
 		return bad("latencies.mean", int64(m.Latencies.Mean), mean)
 	}
-	if m.Earliest.UnixNano() != ref.earliest {
-		return bad("earliest", m.Earliest.UnixNano(), ref.earliest)
+	if !m.Earliest.Equal(time.Unix(ref.epoch, ref.earliest)) {
+		return bad("earliest", m.Earliest.UTC(), time.Unix(ref.epoch, ref.earliest).UTC())
 	}
-	if m.Latest.UnixNano() != ref.latest {
-		return bad("latest", m.Latest.UnixNano(), ref.latest)
+	if !m.Latest.Equal(time.Unix(ref.epoch, ref.latest)) {
+		return bad("latest", m.Latest.UTC(), time.Unix(ref.epoch, ref.latest).UTC())
 	}
-	if m.End.UnixNano() != ref.end {
-		return bad("end", m.End.UnixNano(), ref.end)
+	if !m.End.Equal(time.Unix(ref.epoch, ref.end)) {
+		return bad("end", m.End.UTC(), time.Unix(ref.epoch, ref.end).UTC())
 	}
 	if int64(m.Duration) != ref.duration {
 		return bad("duration", int64(m.Duration), ref.duration)
@@ -273,8 +276,8 @@ func c10CompareJSON(m *vegeta.Metrics, ref c10Ref) error {
 		want int64
 	}{{"earliest", ref.earliest}, {"latest", ref.latest}, {"end", ref.end}} {
 		var ts time.Time
-		if err := json.Unmarshal(raw[c.key], &ts); err != nil || ts.UnixNano() != c.want {
-			return fmt.Errorf("JSON report %s = %s, reference %s", c.key, raw[c.key], time.Unix(0, c.want).UTC().Format(time.RFC3339Nano))
+		if err := json.Unmarshal(raw[c.key], &ts); err != nil || !ts.Equal(time.Unix(ref.epoch, c.want)) {
+			return fmt.Errorf("JSON report %s = %s, reference %s", c.key, raw[c.key], time.Unix(ref.epoch, c.want).UTC().Format(time.RFC3339Nano))
 		}
 	}
 	var codes map[string]int
@@ -439,6 +442,24 @@ func c10GenResults(t *rapid.T, n int) []c10Res {
 		r.In = rapid.Uint64Range(0, 1<<40).Draw(t, fmt.Sprintf("in%d", i))
 		r.Out = rapid.Uint64Range(0, 1<<40).Draw(t, fmt.Sprintf("out%d", i))
 	}
+	// where on the time line: mostly 1970..2100, sometimes across the ends of the int64 nanosecond clock
+	// (1677-09-21, 2262-04-11) or near the years 1 and 9999 (all of which every codec carries)
+	epoch := int64(0)
+	back := base/1e9 + rapid.Int64Range(0, int64(n)*step/1e9+2).Draw(t, "epochback")
+	switch rapid.IntRange(0, 11).Draw(t, "epoch") {
+	case 0:
+		epoch = 9223372036 - back // the sequence crosses 2262-04-11T23:47:16Z
+	case 1:
+		epoch = -9223372037 - back // ... 1677-09-21T00:12:43Z
+	case 2:
+		// from year 1 on - but not the zero time.Time itself, which Go and vegeta alike read as "no instant set"
+		epoch = -62135596800 - base/1e9 + rapid.Int64Range(1, 1e9).Draw(t, "y1")
+	case 3:
+		epoch = 253402300799 - (base+2e12)/1e9 - int64(n)*step/1e9 - 1 - maxLat/1e9 - rapid.Int64Range(0, 1e9).Draw(t, "y9999") // up to year 9999
+	}
+	for i := range rs {
+		rs[i].Epoch = epoch
+	}
 	return rs
 }
 
@@ -523,6 +544,53 @@ func TestC10MetricsLarge(t *testing.T) {
 		vh.Case("C10.metrics", fmt.Sprintf("large-%d-%d", n, seed), true, "large")
 		if err := runC10(c); err != nil {
 			vh.Fail(t, "C10", "C10.metrics", c, err)
+		}
+	})
+}
+
+// very many distinct error texts of one realistic shape (the set of distinct error texts must not
+// lose any; whatever a report keys its set by, two different texts are two elements)
+func TestC10ManyErrors(t *testing.T) {
+	vh.Check(t, 1, 4, func(t *rapid.T) {
+		n := rapid.SampledFrom([]int{120000, 150000, 200000}).Draw(t, "n")
+		if vh.Thorough() {
+			n = rapid.SampledFrom([]int{150000, 300000, 500000}).Draw(t, "n2")
+		}
+		seed := rapid.Uint64().Draw(t, "seed")
+		shape := rapid.SampledFrom([]string{"Get \"http://%d.%d.%d.%d:8080/\": dial tcp %[1]d.%[2]d.%[3]d.%[4]d:8080: connect: connection refused",
+			"read tcp 10.0.0.1:%d->10.0.%d.%d:443: read: connection reset by peer (attempt %d)", "%d.%d.%d.%d"}).Draw(t, "shape")
+		x := seed | 1
+		next := func() uint64 { x ^= x << 13; x ^= x >> 7; x ^= x << 17; return x }
+		var m vegeta.Metrics
+		want := map[string]bool{}
+		for len(want) < n {
+			v := next()
+			e := fmt.Sprintf(shape, 10+v%200, (v>>8)%256, (v>>16)%256, (v>>24)%256)
+			if want[e] {
+				continue
+			}
+			want[e] = true
+			m.Add(&vegeta.Result{Code: 0, Error: e, Timestamp: time.Unix(1600000000, int64(len(want))), Latency: time.Duration(1 + v%1e9)})
+			if len(want)%50000 == 0 {
+				m.Close()
+			}
+		}
+		m.Close()
+		vh.Case("C10.manyerrors", fmt.Sprintf("%d-%d-%s", n, seed, shape), true, fmt.Sprintf("n=%d", n))
+		if len(m.Errors) != n {
+			got := map[string]bool{}
+			for _, e := range m.Errors {
+				got[e] = true
+			}
+			missing := ""
+			for e := range want {
+				if !got[e] {
+					missing = e
+					break
+				}
+			}
+			err := fmt.Errorf("%d results with %d distinct error texts (shape %q, seed %d): the report lists %d errors (%d distinct); missing e.g. %q", n, n, shape, seed, len(m.Errors), len(got), missing)
+			vh.Fail(t, "C10", "C10.manyerrors", map[string]any{"n": n, "seed": seed, "shape": shape}, err)
 		}
 	})
 }
